@@ -536,6 +536,10 @@ type Model[S any] struct {
 	Replay func(path []int) string
 	// Terminal reports states from which no transitions are explored.
 	Terminal func(key string) bool
+	// Enabled (optional) reports whether sym is enabled in state s (disabled symbols are not executed).
+	Enabled func(s S, sym int) bool
+	// OnEdge (optional) observes every explored transition of the state graph.
+	OnEdge func(fromKey string, fromPath []int, sym int, toKey string, isNew bool)
 }
 
 type BFS2Stats struct {
@@ -550,11 +554,12 @@ func BFS2[S any](rep *Report, o BFSOpts, m Model[S]) BFS2Stats {
 	type node struct {
 		s    S
 		path []int
+		key  string
 	}
 	seen := map[string]struct{}{}
 	s0, k0 := m.Init()
 	seen[k0] = struct{}{}
-	frontier := []node{{s0, nil}}
+	frontier := []node{{s0, nil, k0}}
 	depth := 0
 	for len(frontier) > 0 {
 		if o.MaxDepth > 0 && depth >= o.MaxDepth {
@@ -568,6 +573,9 @@ func BFS2[S any](rep *Report, o BFSOpts, m Model[S]) BFS2Stats {
 				return st
 			}
 			for sym := 0; sym < m.NSym; sym++ {
+				if m.Enabled != nil && !m.Enabled(n.s, sym) {
+					continue
+				}
 				c := m.Clone(n.s)
 				k, viol := m.Step(c, n.path, sym)
 				st.Transitions++
@@ -578,6 +586,9 @@ func BFS2[S any](rep *Report, o BFSOpts, m Model[S]) BFS2Stats {
 					continue
 				}
 				if _, ok := seen[k]; ok {
+					if m.OnEdge != nil {
+						m.OnEdge(n.key, n.path, sym, k, false)
+					}
 					continue
 				}
 				if o.MaxStates > 0 && len(seen) >= o.MaxStates {
@@ -585,6 +596,9 @@ func BFS2[S any](rep *Report, o BFSOpts, m Model[S]) BFS2Stats {
 					return st
 				}
 				seen[k] = struct{}{}
+				if m.OnEdge != nil {
+					m.OnEdge(n.key, n.path, sym, k, true)
+				}
 				np := append(append(make([]int, 0, len(n.path)+1), n.path...), sym)
 				if m.Replay != nil {
 					if rk := m.Replay(np); rk != k {
@@ -593,7 +607,7 @@ func BFS2[S any](rep *Report, o BFSOpts, m Model[S]) BFS2Stats {
 					st.Validated++
 				}
 				if m.Terminal == nil || !m.Terminal(k) {
-					next = append(next, node{c, np})
+					next = append(next, node{c, np, k})
 				}
 			}
 		}
